@@ -8,6 +8,7 @@ that every reported error names a tag of the source.
 import DTML.Scan
 import DTML.Parse
 import DTML.Props.C01
+import DTML.Lemmas.Params
 set_option linter.unusedVariables false
 namespace DTML.Props.C06
 open DTML.Scan DTML.Parse
@@ -651,5 +652,167 @@ example : (compile .html "a</dtml-if>".toList).toOption.isNone = true ∧
     (compile .html "<dtml-var x bogus=1>".toList).toOption.isNone = true ∧
     (compile .html "<dtml-if x>a<dtml-else>b</dtml-if>".toList).toOption.isSome = true := by
   decide +kernel
+
+/-! #### DT_Util.parse_params / name_param translated from the source on every run (DTML/GenParams.lean) -/
+section GenParams
+open DTML.GenParams DTML.Lemmas.Params
+
+/-- the statements after the if / elif chain of parse_params (unknown attribute, duplicate with the list exemption, the
+store, `text[l_:].strip()`, the recursion that ends on the empty text), as translated = the `.named` arm of the model -/
+theorem gen_params_tail_is_model (tbl : Table) (k : Text → Params → Except PErr Params) (text : Text) (res : Params)
+    (name value : Text) (L : Nat) :
+    tailGen tbl k text res name value (text.take L).length =
+      (match tbl.lookup (String.ofList name) with
+       | none => .error ⟨"Invalid attribute name"⟩
+       | some d =>
+         if res.has (String.ofList name) && d != "[]" then .error ⟨"Duplicate values for attribute"⟩
+         else
+           if (pyStrip (text.drop L)).isEmpty then
+             .ok ((res.filter (·.1 != String.ofList name)) ++ [(String.ofList name, .str value)])
+           else k (pyStrip (text.drop L)) ((res.filter (·.1 != String.ofList name)) ++ [(String.ofList name, .str value)])) := by
+  unfold tailGen
+  simp only [parmsHas, parmsGet, repr_list_test, drop_take_length, dictSet]
+  cases tbl.lookup (String.ofList name) with
+  | none => simp only [Option.isSome_none, Bool.not_false, if_true]
+  | some d =>
+    simp only [Option.isSome_some, Bool.not_true, Option.getD_some]
+    generalize res.has (String.ofList name) = a
+    cases a <;> rcases Bool.eq_false_or_eq_true (d != "[]") with hb | hb <;>
+      rcases Bool.eq_false_or_eq_true (List.isEmpty (pyStrip (List.drop L text))) with hc | hc <;>
+      simp only [hb, hc, Bool.false_eq_true, if_false, if_true, Bool.and_self, Bool.and_true, Bool.and_false, Bool.not_true, Bool.not_false]
+
+/-- one call of parse_params as translated (the four matchers tried in the order of the source, the group indices, the
+stores, the errors) = one unfolding of the model, for every recursive call `k` -/
+theorem gen_params_step_is_model (tbl : Table) (k : Text → Params → Except PErr Params) (text : Text) (res : Params) :
+    stepGen tbl k text res = modelStep tbl k text res := by
+  obtain ⟨h1, h2, h3, h4, h5⟩ := chain_spec text
+  have hres : (if dictTruthy res then res else []) = res := by
+    cases res <;> rfl
+  unfold stepGen modelStep
+  simp only [hres]
+  cases hp : matchParm text with
+  | some g =>
+    obtain ⟨L, hs, hg⟩ := h1 g hp
+    simp only [Option.isSome_some, if_true, hs, hg, gen_params_tail_is_model]
+    rfl
+  | none =>
+    cases hq : matchQparm text with
+    | some g =>
+      obtain ⟨L, hs, hg⟩ := h2 hp g hq
+      simp only [Option.isSome_some, Option.isSome_none, if_true, if_false, hs, hg, gen_params_tail_is_model, Bool.false_eq_true]
+      rfl
+    | none =>
+      cases hu : matchUnparm text with
+      | some g =>
+        obtain ⟨L, hs, hg⟩ := h3 hp hq g hu
+        simp only [Option.isSome_some, Option.isSome_none, if_true, if_false, hs, hg, Bool.false_eq_true, drop_take_length]
+        cases res with
+        | nil => rfl
+        | cons a t =>
+          simp only [dictTruthy, List.isEmpty_cons, Bool.not_false, if_true, Bool.false_eq_true, if_false, parmsHas,
+            parmsGet, reprIsNone, dictSet]
+          obtain hl | ⟨d, hl⟩ : List.lookup (String.ofList (grp (some g) 2)) tbl = none ∨
+              ∃ d, List.lookup (String.ofList (grp (some g) 2)) tbl = some d := by
+            cases List.lookup (String.ofList (grp (some g) 2)) tbl
+            · exact Or.inl rfl
+            · exact Or.inr ⟨_, rfl⟩
+          all_goals simp only [hl, Option.isSome_some, Option.isSome_none, if_true, if_false,
+            Option.getD_some, beq_iff_eq, Bool.false_eq_true]
+      | none =>
+        cases hv : matchQunparm text with
+        | some g =>
+          obtain ⟨L, hs, hg⟩ := h4 hp hq hu g hv
+          simp only [Option.isSome_some, Option.isSome_none, if_true, if_false, hs, hg, Bool.false_eq_true, drop_take_length]
+          cases res with
+          | nil => rfl
+          | cons a t => rfl
+        | none =>
+          simp only [Option.isSome_none, if_false, Bool.false_eq_true, h5 hp hq hu hv, Bool.not_not]
+          cases text with
+          | nil => rfl
+          | cons c t =>
+            simp only [List.isEmpty_cons, Bool.false_or]
+            rcases Bool.eq_false_or_eq_true (List.isEmpty (pyStrip (c :: t))) with h | h <;>
+              simp only [h, if_true, if_false, Bool.false_eq_true]
+
+/-- parse_params as translated from the source on every run = the model's `parseParamsAux`, for every attribute table,
+fuel, text and dictionary -/
+theorem gen_parse_params_is_model (tbl : Table) : ∀ (fuel : Nat) (text : Text) (res : Params),
+    parseParamsGen tbl fuel text res = parseParamsAux tbl fuel text res := by
+  intro fuel
+  induction fuel with
+  | zero => intro text res; rfl
+  | succ fuel ih =>
+    intro text res
+    have hk : parseParamsGen tbl fuel = parseParamsAux tbl fuel := funext fun t => funext fun r => ih t r
+    rw [aux_succ, ← gen_params_step_is_model, ← hk]
+    rfl
+
+/-- … and so, started like a tag constructor starts it, `Parse.parseParams` -/
+theorem gen_parse_params_is_parseParams (tbl : Table) (text : Text) :
+    parseParamsGen tbl (text.length + 1) text [] = parseParams tbl text :=
+  gen_parse_params_is_model tbl _ text []
+
+/-- name_param as translated (which of '' / attr / 'expr' is looked at in which order, the "..." test, the error texts,
+what goes to Eval) = the model's `nameParam`, for every dictionary, flag and attribute name -/
+theorem gen_name_param_is_model (p : Params) (allowExpr : Bool) (attr : String) :
+    nameParamGen p allowExpr attr = nameParam p allowExpr attr := by
+  unfold nameParamGen nameParam
+  simp only [Params.has, dictText, slice_1_m1]
+  obtain h0 | ⟨v, h0⟩ := opt_cases (p.lookup "")
+  · simp only [h0, Option.isSome_none, if_false, Bool.false_eq_true]
+    obtain ha | ⟨a, ha⟩ := opt_cases (p.lookup attr)
+    · simp only [ha, Option.isSome_none, if_false, Bool.false_eq_true]
+      cases allowExpr
+      · rfl
+      · obtain he | ⟨e, he⟩ := opt_cases (p.lookup "expr") <;> simp only [he] <;> rfl
+    · simp only [ha, Option.isSome_some, if_true]
+      cases allowExpr
+      · rfl
+      · obtain he | ⟨e, he⟩ := opt_cases (p.lookup "expr") <;> simp only [he] <;> rfl
+  · simp only [h0, Option.isSome_some, if_true, quoted_test]
+    rcases Bool.eq_false_or_eq_true (isQuotedShorthand (pvalText v)) with hq | hq <;>
+      rcases Bool.eq_false_or_eq_true (p.lookup attr).isSome with ha | ha <;>
+      rcases Bool.eq_false_or_eq_true (p.lookup "expr").isSome with he | he <;>
+      cases allowExpr <;>
+      simp only [hq, ha, he, if_true, if_false, Bool.false_eq_true, Bool.and_true, Bool.and_false]
+
+/-- … also with the default of `attr` as written in the source -/
+theorem gen_name_param_default (p : Params) (allowExpr : Bool) : nameParamGen p allowExpr = nameParam p allowExpr :=
+  gen_name_param_is_model p allowExpr "name"
+
+/-- termination of the recursion of parse_params: every successful match (`name=value`, `name="value"`, a bare word, a
+quoted string) consumes at least one character, so the text handed to the recursive call is shorter -/
+theorem params_progress (text : Text) (len : Nat) (h : consumed (nextSpec text) = some len) :
+    1 ≤ len ∧ (text.drop len).length < text.length ∧ (pyStrip (text.drop len)).length < text.length :=
+  ⟨nextSpec_consumes text len h, rest_shorter text len h,
+    Nat.lt_of_le_of_lt (pyStrip_length_le _) (rest_shorter text len h)⟩
+
+/-- the model recurses on fuel (one unit per attribute), not on a measure: any fuel above the length of the text gives
+the same result as the |text| + 1 that `parseParams` starts with - the fuel is never used up -/
+theorem params_fuel_enough (tbl : Table) (fuel : Nat) (text : Text) (res : Params) (h : text.length < fuel) :
+    parseParamsAux tbl fuel text res = parseParamsAux tbl (text.length + 1) text res :=
+  aux_fuel_irrelevant tbl fuel (text.length + 1) text res h (Nat.lt_succ_self _)
+
+/-- the translated recursion with any fuel above the length of the text = `Parse.parseParams` -/
+theorem gen_parse_params_any_fuel (tbl : Table) (fuel : Nat) (text : Text) (h : text.length < fuel) :
+    parseParamsGen tbl fuel text [] = parseParams tbl text := by
+  rw [gen_parse_params_is_model]
+  exact params_fuel_enough tbl fuel text [] h
+
+/-- non-vacuity / a sample run of the translated code: the unnamed value, a keyword with a default, a quoted value, the
+errors -/
+example : (parseParamsGen Gen.varParams 30 "x fmt=\"a b\" upper".toList []).toOption =
+      some [("", .str "x".toList), ("fmt", .str "a b".toList), ("upper", .dflt "1")] ∧
+    (match parseParamsGen Gen.varParams 30 "x bogus=1".toList [] with | .error e => e.msg | .ok _ => "") =
+      "Invalid attribute name" ∧
+    (match parseParamsGen Gen.varParams 30 "x fmt=a fmt=b".toList [] with | .error e => e.msg | .ok _ => "") =
+      "Duplicate values for attribute" ∧
+    (match parseParamsGen Gen.varParams 30 "x =".toList [] with | .error e => e.msg | .ok _ => "") =
+      "invalid parameter" ∧
+    (match nameParamGen [("", .str "\"a+b\"".toList)] true with | .ok r => r.1.isExpr && r.1.name == "a+b".toList | .error _ => false) = true := by
+  decide +kernel
+
+end GenParams
 
 end DTML.Props.C06
